@@ -1976,6 +1976,34 @@ def typehint_simple_arms() -> List[Tuple[List[str], str]]:
     return out
 
 
+def sigresolver_simple_arms() -> List[Tuple[List[str], str]]:
+    """the arms of `resolve_signature_typehint_default`'s top-level chain that test the annotation's identity (directly or
+    through `annotation_is_naked_tuple`, as defined in typehints.py) and return an expression that does not mention the
+    annotation; the other arms (record classes, the generic tuple forms) are skipped"""
+    tree = ast.parse(open(os.path.join(PKG, "typehints.py")).read())
+    helpers: Dict[str, List[str]] = {}
+    for h in tree.body:
+        if isinstance(h, ast.FunctionDef) and h.name == "annotation_is_naked_tuple" and len(h.body) == 1 \
+                and isinstance(h.body[0], ast.Return):
+            names = _is_names(h.body[0].value, "annotation")
+            if names is not None:
+                helpers[h.name] = names
+    f = _find_function("signature.py", "resolve_signature_typehint_default")
+    out: List[Tuple[List[str], str]] = []
+    node = f.body[0] if f is not None and f.body and isinstance(f.body[0], ast.If) else None
+    while isinstance(node, ast.If):
+        t = node.test
+        names = _is_names(t, "annotation")
+        if names is None and isinstance(t, ast.Call) and isinstance(t.func, ast.Name) and t.func.id in helpers \
+                and [ast.unparse(a) for a in t.args] == ["annotation"]:
+            names = helpers[t.func.id]
+        rets = [b for b in node.body if not isinstance(b, (ast.Import, ast.ImportFrom))]
+        if names is not None and len(rets) == 1 and isinstance(rets[0], ast.Return) and "annotation" not in ast.unparse(rets[0]):
+            out.append((names, ast.unparse(rets[0].value)))
+        node = node.orelse[0] if len(node.orelse) == 1 else None
+    return out
+
+
 def _is_names(e: ast.AST, var: str):
     """`var is A` / `var is A or var is B …` -> [A, B, …] (source text of the right-hand sides); else None"""
     parts = e.values if isinstance(e, ast.BoolOp) and isinstance(e.op, ast.Or) else [e]
@@ -1993,6 +2021,9 @@ def render_pins() -> str:
              "namespace Koda.Src", ""]
     for group in PIN_GROUPS:
         lines += [f"def {group} : List String := {lean_string_list(collect_pins(group))}", ""]
+    lines += ["/-- the identity-tested arms of `resolve_signature_typehint_default` (signature.py), wherever they stand in its chain -/",
+              "def sigResolverSimpleArms : List (List String × String) := [" +
+              ",\n  ".join("([" + ", ".join(lstr(n) for n in ns) + "], " + lstr(r) + ")" for ns, r in sigresolver_simple_arms()) + "]", ""]
     lines += ["/-- the identity-tested arms of `get_typehint_validator_base`: (what the annotation is compared with, what is returned) -/",
               "def typehintSimpleArms : List (List String × String) := [" +
               ",\n  ".join("([" + ", ".join(lstr(n) for n in ns) + "], " + lstr(r) + ")" for ns, r in typehint_simple_arms()) + "]", ""]
